@@ -407,6 +407,14 @@ class Catalogue:
                     for label, nt in self._incompatible(t):
                         self.add("all-variable-usages-are-allowed", "$%s: %s retyped to %s (%s)%s" % (n, tstr(t), tstr(nt), label, only_nested),
                                  lambda d, oi=oi, vi=vi, nt=nt: self._set_vardef(d, oi, vi, typ=nt, default=NODEF))
+                    # retypings judged against the ACTUAL usage positions with the spec's IsVariableUsageAllowed
+                    positions = var_positions(s, doc, op, n)
+                    for label, nt, nd in self._subtle_retypes(t, dflt):
+                        bad = [p for p in positions if not docgen.DocGen.var_allowed(nt, nd, p[0], p[1])]
+                        if bad and (nd is NODEF or values.coerce_literal(s, nt, nd, None)[0] == "ok"):
+                            self.add("all-variable-usages-are-allowed", "$%s: %s retyped to %s%s (%s; used at a %s position)" % (
+                                n, tstr(t), tstr(nt), "" if nd is NODEF else " = " + print_value(nd), label, tstr(bad[0][0])),
+                                lambda d, oi=oi, vi=vi, nt=nt, nd=nd: self._set_vardef(d, oi, vi, typ=nt, default=nd))
             self.add("all-variables-used", "op#%d declares an unused variable" % oi,
                      lambda d, oi=oi: (d.ops[oi].vardefs.append(("unusedVar_", N("Int"), NODEF)), self._force_longhand(d, oi)))
         for i, x in self.pick([(i, x) for i, x in real_fields if s.fields_of(x.parent).get(x.sel.name) and s.fields_of(x.parent)[x.sel.name].args]):
@@ -589,6 +597,30 @@ class Catalogue:
             out.append(("list for non-list", L(base)))
         return out
 
+    def _subtle_retypes(self, t, dflt):
+        """(label, new type, new default) candidates that differ from t only in nullability somewhere."""
+        out = []
+
+        def strip_inner(x, top=True):
+            if x[0] == "NN":
+                inner = strip_inner(x[1], False)
+                return ("NN", inner) if top else inner
+            if x[0] == "L":
+                return ("L", strip_inner(x[1], False))
+            return x
+        si = strip_inner(t)
+        if si != t:
+            try:
+                d = values.plain_to_literal(self.rng, self.s, si, values._gen_plain_nn(self.rng, self.s, si, 1))
+                out.append(("inner non-null dropped, non-null default present", si, d))
+            except Exception:  # noqa
+                pass
+            out.append(("inner non-null dropped", si, NODEF))
+        if t[0] == "NN":
+            out.append(("nullable without default", t[1], NODEF))
+            out.append(("nullable with null default", t[1], ("null",)))
+        return out
+
     def _nested_wrong_var(self, d, site, an, vtype, mode, td=None, f0=None):
         """Declare $wrongNested_: vtype in the owning operation(s) and use it nested inside a literal of another type."""
         name = "wrongNested_"
@@ -602,6 +634,37 @@ class Catalogue:
             op.selset.append(FieldSel("__typename", alias="useWrongNested_", directives=[]))
         d.force_longhand = True
         d.wrong_nested = name
+
+
+def var_positions(s, doc, op, name):
+    """[(position type, position has a default)] of every WHOLE-ARGUMENT usage of $name by `op` (fragments included)."""
+    out, seen = [], set()
+    dargs = DIRECTIVE_ARGS(s)
+
+    def rec(selset, parent):
+        for x in selset:
+            for dname, dl in x.directives:
+                for an, v in dl:
+                    if v == ("var", name) and dname in dargs and an in dargs[dname]:
+                        dd = s.directives.get(dname)
+                        has_def = bool(dd and any(a.name == an and a.default is not NODEF for a in dd.args))
+                        out.append((dargs[dname][an], has_def))
+            if x.kind == "field":
+                f = s.fields_of(parent).get(x.name) if parent in s.types else None
+                if f is not None:
+                    for an, v in x.args:
+                        a = f.arg(an)
+                        if a is not None and v == ("var", name):
+                            out.append((a.type, a.default is not NODEF))
+                    if x.selset:
+                        rec(x.selset, named_of(f.type))
+            elif x.kind == "inline":
+                rec(x.selset, x.typecond or parent)
+            elif x.kind == "spread" and x.name in doc.frags and x.name not in seen:
+                seen.add(x.name)
+                rec(doc.frags[x.name].selset, doc.frags[x.name].typecond)
+    rec(op.selset, s.roots()[op.kind])
+    return out
 
 
 def var_usage_kinds(doc, op, name):
